@@ -34,7 +34,9 @@ class _Phys:
                                "0006-flat-omit-prefix-storage-layout", "0007-n-tuple-omit-prefix-storage-layout"],
                       # ids that are path prefixes of one another (direct layout) and ids that the omit-prefix layouts map to one path
                       ids=[["coll/2024/rep1", "coll/2024/rep2", "coll", "coll/2024"], ["a", "a/b/c", "a/b", "z"], ["x1", "x2", "x3"], ["deep/er/id", "deep", "other"],
-                           ["a:obj1", "b:obj1", "a:obj2", "c:obj1"], ["ns:one", "other:one", "ns:two"]],
+                           ["a:obj1", "b:obj1", "a:obj2", "c:obj1"], ["ns:one", "other:one", "ns:two"],
+                           # ids that run through the inner directories of another object
+                           ["p", "p/v1/content", "p/v1/content/x", "q"], ["obj", "obj/v1", "obj/v1/content/z/w", "obj/extensions/e"]],
                       weights=[30, 3, 6, 3, 4, 2, 1, 38, 12, 1], trace=False)
 
     @staticmethod
